@@ -3,7 +3,8 @@
 E1: every tree with <= N nodes over 9 classes (no repeated node objects; content-identical twins at different
 positions occur naturally and carry ids X / X_1), every node as query argument, every ordered pair for the
 binary queries, a separately built content-identical foreign copy for the outside-the-tree cases; all answers
-are compared with the path algebra on the descriptor.
+are compared with the path algebra on the descriptor.  Route "subtree": the Tree is built on every inner position of every
+tree with <= 4 nodes (thorough: all); the nodes above and beside that position are outside.
 """
 from __future__ import annotations
 
@@ -54,10 +55,19 @@ def follow_xpath(root, xp):
     return cur
 
 
-def check_tree(U, d, rec: Rec, route="direct"):
+def check_tree(U, d, rec: Rec, route="direct", at=None):
     zoo.reset_registry()
     index = {}
     root = U.build(d, index=index)
+    outside = []
+    whole = d
+    if route == "subtree":
+        # the Tree is built on an inner node of a larger registered tree: everything above and beside it is outside
+        full_index, full_root = index, root
+        root = full_index[at]
+        index = {q[len(at):]: n for q, n in full_index.items() if q[: len(at)] == at}
+        outside = [n for q, n in full_index.items() if q[: len(at)] != at]
+        d = dict(U.positions(d))[at]
     if route == "duplicate":
         root0 = root
         root = root.duplicate()
@@ -66,7 +76,9 @@ def check_tree(U, d, rec: Rec, route="direct"):
     pos = U.positions(d)
     desc_at = dict(pos)
     paths = [p for p, _ in pos]
-    case = {"tree": d, "route": route}
+    case = {"tree": whole, "route": route}
+    if at is not None:
+        case["at"] = [list(x) for x in at]
     rec.count("states")
     rec.sample(case)
     keys = [U.key(dd) for _, dd in pos]
@@ -156,6 +168,20 @@ def check_tree(U, d, rec: Rec, route="direct"):
     if len(set(xps)) != len(xps):
         bad("get_xpath-shared", "two nodes share one xpath")
 
+    for on in outside:
+        ev()
+        if tr.is_in_tree(on) or tr.is_root(on):
+            bad("outside-is_in_tree", "a node above / beside the Tree's root is reported as a member")
+        for name, q in (("get_parent", tr.get_parent), ("get_xpath", tr.get_xpath), ("get_depth", tr.get_depth)):
+            ev()
+            try:
+                q(on)
+                bad(f"outside-{name}-noraise", f"{name}(node above / beside the Tree's root) did not raise KeyError")
+            except KeyError:
+                pass
+        ev()
+        if tr.is_ancestor(root, on) or tr.is_ancestor(index[paths[-1]], on):
+            bad("outside-is_ancestor", "a node above the Tree's root is reported as an ancestor of a member")
     # foreign content-identical copy, built while the originals are registered
     findex = {}
     froot = U.build(d, index=findex)
@@ -200,6 +226,8 @@ def run_shard(cfg):
     from pyoak import config as _config
 
     _config.RUNTIME_TYPE_CHECK = cfg["k"] % 3 == 2
+    _config.TRACE_LOGGING = cfg["k"] % 3 == 1   # the other switch a user may turn on; it only adds log records
+    rec.extra["trace_logging_in_shard_1_mod_3"] = True
     rec.extra["runtime_type_check_in_shard_2_mod_3"] = True
     rec.extra['first_use'] = zoo.warm_up(cfg['k'])
     U = zoo.universe(UNIV)
@@ -221,11 +249,15 @@ def run_shard(cfg):
             check_tree(U, d, rec)
             if cfg.get("tier") == "thorough":
                 check_tree(U, d, rec, route="duplicate")
+            if n <= (4 if cfg.get("tier") != "thorough" else cfg["n"]):
+                for q, _ in U.positions(d)[1:]:
+                    check_tree(U, d, rec, route="subtree", at=q)
     rec.bound = {"max_nodes": cfg["n"]}
     return rec.result()
 
 
 def replay(case, cfg):
     rec = Rec(cfg)
-    check_tree(zoo.universe(UNIV), case["tree"], rec, route=case.get("route", "direct"))
+    at = tuple((f, i) for f, i in case["at"]) if case.get("at") is not None else None
+    check_tree(zoo.universe(UNIV), case["tree"], rec, route=case.get("route", "direct"), at=at)
     return rec.result()["violations"]
